@@ -575,6 +575,11 @@ pub const STACK_BYTES: usize = 8 << 20;
 /// Runs a world. Not re-entrant: one world at a time per process.
 pub fn run_world(world: &World, env: &Arc<WorkerEnv>, wall_per_job: Duration) -> WorldResult {
     let n = world.threads.len();
+    log::set_max_level(match world.log_level {
+        4 => log::LevelFilter::Debug,
+        5 => log::LevelFilter::Trace,
+        _ => log::LevelFilter::Info,
+    });
     let sched = Arc::new(Sched::new(n, world.sched.clone()));
     let results: Arc<Mutex<Vec<Option<JobResult>>>> = Arc::new(Mutex::new(vec![None; world.jobs.len()]));
     let world = Arc::new(world.clone());
@@ -626,6 +631,7 @@ pub fn run_world(world: &World, env: &Arc<WorkerEnv>, wall_per_job: Duration) ->
         wall_hang = Some((t, current_job[t].load(Ordering::SeqCst)));
         // the stuck thread cannot be stopped: the caller must end this process
     }
+    log::set_max_level(log::LevelFilter::Info);
     let jobs = std::mem::take(&mut *results.lock().unwrap());
     WorldResult { jobs, sched: sched.report(), wall_hang }
 }
